@@ -30,7 +30,12 @@ CLAIM = dict(
          "Package::from_bytes result is compared arena by arena with the extracted model and against the specification "
          "predicates; the satisfiability half is a TEST, not a theorem: the package is re-encoded with "
          "define_components=false and the ORIGINAL component is substituted for the emitted unlocked-dep import inside an "
-         "outer component validated by wasmparser. Ten defects/limitations found this way are known findings, one is fixed.",
+         "outer component validated by wasmparser. Ten defects/limitations found this way are known findings, one is fixed. "
+         "Generated value types cover every constructor of wit-parser 0.247 / wac_types::DefinedType -- primitives incl. "
+         "error-context, record, variant, enum, flags, tuple, list, fixed-size list, option, result (all four arm forms), "
+         "own/borrow, stream and future with absent, primitive, named and ANONYMOUS compound payloads -- in parameter and "
+         "result position of sync and async functions, in imported and exported interfaces and at world level; all of them "
+         "are inside the model. Outside: `map` (the conversion refuses it with an error; not generated).",
     design_ref="DESIGN.md §5 C08, §10",
     note="Trusted: Coq kernel, extraction, OCaml driver (incl. structural equality of extracted trees), Rust harness "
          "(validator-graph dumper, arena printer, outer-component assembler), wasmparser/wit-component/wit-parser/"
@@ -519,7 +524,8 @@ def run(res, tier, seed, replay):
         encoder_failures_independent_of_mode=general_encoder, graphs_with_f1_predicate=r["f1_true"],
         distinct_nontrivial=len(nontriv),
         rule="one case = one valid component (11 fixed shapes + corpus + generated WIT worlds + shaped WAT: quick 150+60, "
-             "thorough 6000+2500, minus sources the reference tools reject). non-trivial = distinct validator graphs whose decoded world has a `uses` entry, an aliased "
+             "thorough 6000+2500, minus sources the reference tools reject; about a fifth of the cases have a stream/future whose "
+             "payload is an anonymous compound type). non-trivial = distinct validator graphs whose decoded world has a `uses` entry, an aliased "
              "resource, or a module/component/value/instance-type/component-type item. " + harness_note,
         samples=[unesc(c.split("\t")[3])[:600] for c in cases[ncorpus:ncorpus + 2] + cases[-1:]],
         trusted_base=vlib.TRUSTED_COMMON + [
